@@ -238,7 +238,7 @@ def oracle_same_atoms(cell, S, a, b):
     return []
 
 
-def oracle_primitive(sc, pmat, prim):
+def oracle_primitive(sc, pmat, prim, full_closure=True):
     """sc: supercell (PhonopyAtoms), pmat: primitive axes relative to sc (float 3x3), prim: Primitive."""
     fails = []
     pmat = np.array(pmat, dtype="double")
@@ -293,8 +293,8 @@ def oracle_primitive(sc, pmat, prim):
     rowset = set(rows)
     if len(rowset) != nt or tuple(range(ns)) not in rowset:
         fails.append(("perm-group", "translations are not distinct or the identity is missing"))
-    for a in rows:
-        for b in rows:
+    for a in (rows if full_closure else rows[:6]):
+        for b in (rows if full_closure else rows[:24]):
             if tuple(a[b[i]] for i in range(ns)) not in rowset:
                 fails.append(("perm-group", "translation permutations are not closed under composition"))
                 break
@@ -407,6 +407,7 @@ def main(run):
         "element such as Cr1/Cr2 with equal and different masses); primitive matrices "
         "P/F/I/A/C/R/auto. Compared exactly with the Lean model: SNF D,P,Q, xgcd triples, index maps, permutations; positions as "
         "rationals (|d| <= 1e-9 modulo 1). The tiling statement itself is evaluated on every implementation result. "
+        "Symmetry tolerance: symprec in {1e-2,1e-3,1e-5,1e-7} on ideal cells whose supercell holds 54..256 primitive cells (must be built and tile). "
         "Non-trivial = supercell matrix not diagonal (or primitive index > 1 for primitive cases); distinct by (cell, matrix, route).")
     run.cov["trusted_base"] = [
         "Lean 4.33 kernel; Mathlib v4.33; axioms per theorem in coverage.theorems",
@@ -633,7 +634,7 @@ def main(run):
     mats = list(quick_mats)
     for m in mats:
         do_supercell(cells["tric3"], m, with_model=True)
-    for m in (mats if thorough else mats[rng.randrange(3)::3]):  # second cell: every third matrix in quick, all in thorough
+    for m in (mats if thorough else mats[rng.randrange(4)::4]):  # second cell: every fourth matrix in quick, all in thorough
         do_supercell(rcells[0], m, with_model=False)
     if thorough:
         # bounded-exhaustive: every matrix with entries in {-1,0,1,2} and det 1..8, both routes, tiling oracle
@@ -726,6 +727,51 @@ def main(run):
                     continue
                 run.count("labelled-species cases")
                 do_supercell(c, S, with_model=True, prim=pmx, api=(isinstance(pmx, str) and pmx != "auto"))
+    # symmetry-tolerance dimension: ideal (exactly rational) positions, supercells holding many primitive cells, symprec from
+    # 1e-2 to 1e-7. A tileable ideal input must be BUILT and tile for every such symprec (noise is ~1e-16).
+    tol_cases = [("fcc", "F", 3), ("bcc", "I", 3), ("sc", "P", 5), ("fcc", "auto", 3), ("bcc", "I", 4)] + ([("fcc", "F", 4)] if thorough or rng.random() < 0.5 else [("cscl", "P", 4)])
+    for name, cen, n in tol_cases:
+        c = cells[name]
+        S = np.diag([n, n, n])
+        for sp in (1e-2, 1e-3, 1e-5, 1e-7):
+            old = rng.random() < 0.7
+            sc, exc = try_impl(get_supercell, c["atoms"], S, is_old_style=old, symprec=sp)
+            run.count("symprec stream symprec=%g" % sp)
+            run.count("oracle-symprec", section="oracle")
+            case = dict(cell=name, supercell_matrix=S.tolist(), is_old_style=old, primitive_matrix=cen, symprec=sp)
+            run.case((name, n, cen, sp, old, "symprec"), nontrivial=True)
+            if exc is not None:
+                run.violation("get_supercell(is_old_style=%s)" % old, "tileable-input-rejected-symprec", "ideal cell, symprec=%g: %s: %s" % (sp, type(exc).__name__, exc), case)
+                continue
+            bad = oracle_supercell(c["atoms"], S, sc)
+            for kl, what in bad:
+                run.violation("get_supercell(is_old_style=%s)" % old, kl + "-symprec", what, case)
+            if cen == "auto":
+                from phonopy.structure.cells import guess_primitive_matrix
+
+                pmu = quiet(guess_primitive_matrix, c["atoms"], symprec=sp)
+            else:
+                pmu = ffloat(CENTRING[cen])
+            pmf = np.linalg.inv(S) @ pmu
+            pr, exc = try_impl(get_primitive, sc, pmf, symprec=sp)
+            if exc is not None:
+                run.violation("get_primitive", "tileable-input-rejected-symprec",
+                              "ideal %s %dx%dx%d, primitive matrix %s (supercell-relative determinant %.3g), symprec=%g: %s: %s"
+                              % (name, n, n, n, cen, np.linalg.det(pmf), sp, type(exc).__name__, str(exc)[:120]), case)
+                continue
+            for kl, what in oracle_primitive(sc, pmf, pr, full_closure=len(sc) <= 64):
+                run.violation("get_primitive", kl + "-symprec", what, case)
+        if n == 3 and cen != "auto":
+            for sp in (1e-2, 1e-7):
+                ph, exc = try_impl(Phonopy, c["atoms"], supercell_matrix=S, primitive_matrix=cen, symprec=sp, log_level=0)
+                run.count("oracle-symprec", section="oracle")
+                case = dict(cell=name, supercell_matrix=S.tolist(), primitive_matrix=cen, symprec=sp, api="Phonopy")
+                if exc is not None:
+                    run.violation("Phonopy.__init__", "tileable-input-rejected-symprec", "ideal cell, symprec=%g: %s: %s" % (sp, type(exc).__name__, str(exc)[:120]), case)
+                    continue
+                pmr = np.linalg.inv(S) @ (np.eye(3) if ph.primitive_matrix is None else ph.primitive_matrix)
+                for kl, what in oracle_supercell(c["atoms"], S, ph.supercell) + oracle_primitive(ph.supercell, pmr, ph.primitive, full_closure=False):
+                    run.violation("Phonopy.primitive", kl + "-symprec", what, case)
     # explicit primitive matrices: unit cell = supercell of a smaller cell
     for S0 in ([[2, 0, 0], [0, 1, 0], [0, 0, 1]], [[1, 1, 0], [-1, 1, 0], [0, 0, 1]], [[1, 0, 1], [0, 2, 0], [0, 1, 1]]):
         base = cells["tric3"]
@@ -863,7 +909,7 @@ def main(run):
             run.broke("correspondence", "get_primitive: positions differ from the model by %.3g (mod 1)" % dd, info)
     run.cov["correspondence"]["compared"] = ncmp
     run.cov["exhaustive"] = False
-    run.cov["exhaustive_part"] = ("all %d integer matrices with entries in {-1,0,1} and det 1..4, both routes (a second cell on every third in quick, all in thorough)" % len(quick_mats)
+    run.cov["exhaustive_part"] = ("all %d integer matrices with entries in {-1,0,1} and det 1..4, both routes (a second cell on every fourth in quick, all in thorough)" % len(quick_mats)
                                   + ("; all %d matrices with entries in {-1,0,1,2}, 1<=|det|<=8 (SNF3x3), det 1..8 (supercells)" % len(big) if thorough else ""))
     run.cov["partial"] = [
         "FullStatement_snf_flags: that the two ignored _first()/_second() results inside _finalize are always True (finOk) is not a theorem; "
